@@ -754,6 +754,9 @@ func (a *A) ruleLatePolicy(W *types.Named, add *ssa.Function) {
 				if v == tsOk {
 					return T
 				}
+				if k := a.wmVerdict(v); k == "late" || k == "far" {
+					return F
+				}
 				if c, ok := v.(*ssa.Call); ok && c.Call.StaticCallee() != nil {
 					f := c.Call.StaticCallee()
 					if isLate(f) {
@@ -1478,6 +1481,19 @@ func (a *A) isMoveBackForAcceptedRow(fn *ssa.Function, st *ssa.Store, W *types.N
 	lateRow := func(v ssa.Value) Tri {
 		if isLate(v) {
 			return T
+		}
+		if ex, ok := v.(*ssa.Extract); ok && a.wmVerdict(v) == "late" {
+			// the verdict of a later-written watermark helper on this very timestamp
+			for _, arg := range ex.Tuple.(*ssa.Call).Call.Args {
+				if resolveBound(arg) == ts {
+					return T
+				}
+				for _, l := range phiLeaves(ts) {
+					if resolveBound(arg) == l {
+						return T // the timestamp before it was merged with the processing-time clock
+					}
+				}
+			}
 		}
 		if eq, ok := watermarkTest(v); ok {
 			return tri(!eq) // there is a watermark
